@@ -86,8 +86,8 @@ func Run(r *rt.Run) error {
 	}
 	maxLen = fullLen
 	// random: registration churn interleaved with collects on both topics
-	matches := []string{"none", "changed", "warn", "critchanged", "never", "tagA", "tagAwarn"}
-	tags := []string{"none", "a", "b", "a", "none"}
+	matches := []string{"none", "changed", "warn", "critchanged", "never", "tagA", "tagAwarn", "nameM", "taskT", "durGt1", "nameMchanged"}
+	tags := []string{"none", "a", "b", "a", "none", "n", "u", "d", "ad"}
 	randCfg := func() Cfg {
 		c := Cfg{Match: matches[r.Rand.Intn(len(matches))]}
 		if r.Rand.Intn(3) == 0 {
